@@ -138,6 +138,18 @@ example :
   refine ⟨?_, by decide, by decide⟩
   simp [GoodOverlap, NodupFn, Stable, LoadsSucceed, stampOf]
 
+/-- **the table must keep the stamps taken before the load**: a scan that re-stats what it loaded *after* loading
+    (`scanStepRestat`) does not converge — shard `a` (content 10) is opened, then replaced (content 11, new mtime) before
+    the re-stat; the table now has the new mtime for the old content, and the following scan of the unchanging
+    directory loads nothing: content 10 stays loaded although only 11 is on disk. The same history is fine for the real
+    order (`scan_converges_overlapping`; second conjunct). -/
+theorem restat_after_load_does_not_converge :
+    let a : Bytes := [102, 95, 118, 49, 54, 46, 122]
+    let A : Disk := [⟨⟨a, some 1, none⟩, 10⟩]
+    let B : Disk := [⟨⟨a, some 2, none⟩, 11⟩]
+    (scanStep 16 17 (scanStepRestat 16 17 ⟨[], []⟩ A B) B).loaded = [(a, 10)] ∧
+    (scanStep 16 17 (scanStep2 16 17 ⟨[], []⟩ A A) B).loaded = [(a, 11)] := by decide
+
 /-- the single "latest mtime" the watcher kept before the second fix cannot see a sidecar that is removed while the
     shard is the newer file: different (shard, sidecar) states, same timestamp -/
 theorem effTime_forgets_sidecar : ∃ (mt s : Nat), (mt, some s) ≠ ((mt, none) : Stamp) ∧ effTime mt (some s) = effTime mt none :=
